@@ -311,7 +311,7 @@ theorem initTail_eq : initTail = (do initShadow; initDump) := by
   simp only [bind_assoc]
 
 /-- the shadows between the two halves -/
-structure ShadowOk (d : Rf24) : Prop where
+structure InitShadowOk (d : Rf24) : Prop where
   range : InRange d
   user : d.pipe0ReadAddr = none
   config : d.config = 0x0E
@@ -322,7 +322,7 @@ structure ShadowOk (d : Rf24) : Prop where
 
 theorem initShadow_spec (s : DrvState) (h : HeadOk s.d) :
     ∃ s', exec initShadow s = (.ok (), s') ∧ Reach true s s' ∧
-      (s.Wf → s'.cfg.activated = s.cfg.activated ∧ s'.d.isPlus = s.d.isPlus) ∧ ShadowOk s'.d := by
+      (s.Wf → s'.cfg.activated = s.cfg.activated ∧ s'.d.isPlus = s.d.isPlus) ∧ InitShadowOk s'.d := by
   obtain ⟨hc, hp0, hp1, ⟨hpnl, hpn⟩, hop⟩ := h
   unfold initShadow
   simp only [exec_bind, exec_modD', exec_regReadBytes, TX_ADDRESS]
@@ -341,7 +341,7 @@ theorem initShadow_spec (s : DrvState) (h : HeadOk s.d) :
   · show s.d.openPipes < 64
     rw [hop]; decide
 
-theorem initDump_spec (X : DrvState) (h : ShadowOk X.d) :
+theorem initDump_spec (X : DrvState) (h : InitShadowOk X.d) :
     ∃ s', exec initDump X = (.ok (), s') ∧ Reach true X s' ∧
       (X.Wf → s'.cfg.activated = X.cfg.activated ∧ s'.d.isPlus = X.d.isPlus) ∧ InitOk s'.d := by
   obtain ⟨hrX, hu, hc, hop, haa, hdyn, hfeat⟩ := h
@@ -388,7 +388,7 @@ theorem regsOf_writeReg7 (r : Radio) (d : Bytes) : regsOf (r.writeReg 7 d) = reg
 
 /-- the registers after the `with` block of `__init__` when the feature registers are accessible:
     every configuration register equals its shadow -/
-theorem initDump_regs (X : DrvState) (h : ShadowOk X.d) (hw : X.Wf) (hv : X.cfg.featureVisible = true)
+theorem initDump_regs (X : DrvState) (h : InitShadowOk X.d) (hw : X.Wf) (hv : X.cfg.featureVisible = true)
     (hs : RadioShape X.cfg) : regsOf (exec initDump X).2.cfg = shadowRegs (exec initDump X).2.d := by
   obtain ⟨hrX, hu, hc, hop, haa, hdyn, hfeat⟩ := h
   unfold initDump
